@@ -82,9 +82,25 @@ pub fn str_to_number<S: AsRef<str>>(string: S) -> Option<f64> {
         if digits == "" {
             return None;
         }
-        return digits.chars().fold(Some(0.0), |acc, c| {
-            Some(acc? * (radix as f64) + (c.to_digit(radix)? as f64))
-        });
+        // Accumulate the digits exactly, so that a literal longer than 53 bits
+        // is rounded to the nearest double once (adding digit by digit in f64
+        // would round at every step). Beyond 128 bits only the magnitude and
+        // a sticky bit for the dropped digits matter.
+        let bits_per_digit = u32::trailing_zeros(radix);
+        let mut acc: u128 = 0;
+        let mut dropped_bits: i32 = 0;
+        for c in digits.chars() {
+            let digit = c.to_digit(radix)? as u128;
+            if acc >> (128 - bits_per_digit) == 0 {
+                acc = (acc << bits_per_digit) | digit;
+            } else {
+                dropped_bits = dropped_bits.saturating_add(bits_per_digit as i32);
+                if digit != 0 {
+                    acc |= 1;
+                }
+            }
+        }
+        return Some((acc as f64) * 2f64.powi(dropped_bits));
     }
     match s {
         "Infinity" | "+Infinity" => Some(f64::INFINITY),
